@@ -32,6 +32,7 @@ class CU:
         self.header_extra = header_extra
         self.kids = []          # (tag, [(at, form, bytes, implicit_const or None)], has_children)
         self.root_attrs = []
+        self.root_name = 'tab'
         self.scope = None       # (tag, attrs): one DIE between the root and the children (e.g. a subprogram with a frame base)
 
     def E(self):
@@ -58,7 +59,7 @@ class CU:
                 if form == 0x21:
                     ab.extend(sleb(ic))
             ab.extend(b'\0\0')
-        root_attrs = [(0x03, 0x08, b'tab\0', None)] + self.root_attrs
+        root_attrs = [(0x03, 0x08, self.root_name.encode() + b'\0', None)] + self.root_attrs
         abbrev(1, self.root_tag, True, root_attrs)
         body.extend(uleb(1))
         for at, form, data, ic in root_attrs:
